@@ -139,9 +139,10 @@ Definition is_dup (id : list nat) (p : nat) (s : mstate) : bool * mstate :=
 (* GreedyRepeatIterator as a post-order traversal.  z = 1 iff the zero-repetition entry is on the
    stack; flag = still on the chain built by the priming loop (whose depth test counts only body
    iterators, while later re-deepening also counts the zero entry) *)
-Fixpoint explore (body : nat -> mstate -> LS) (mn bound z : nat) (fuel : nat) (j : nat) (flag : bool)
+Fixpoint explore (body : nat -> mstate -> LS) (mn bound z : nat) (fuel : nat) (j : nat) (flag emp : bool)
          (p : nat) (s : mstate) : LS :=
-  let yield_here := Nat.leb mn (z + j) && Nat.ltb 0 (z + j) in
+  (* emp: some repetition on the path so far consumed nothing, which lifts the minimum *)
+  let yield_here := (Nat.leb mn (z + j) || emp) && Nat.ltb 0 (z + j) in
   let can_deepen := if flag then Nat.ltb j bound else Nat.ltb (z + j) bound in
   match fuel with
   | O => LOut
@@ -152,7 +153,7 @@ Fixpoint explore (body : nat -> mstate -> LS) (mn bound z : nat) (fuel : nat) (j
            | LNil s' => if yield_here then once p s' else LNil s'
            | LOut => LOut | LPanic k => LPanic k
            | LCons q s' r =>
-               append (explore body mn bound z f (S j) fl q s') (fun s'' => go (r s'') false)
+               append (explore body mn bound z f (S j) fl (emp || Nat.eqb q p) q s') (fun s'' => go (r s'') false)
            end) (body p s) flag
       else if yield_here then once p s else LNil s
   end.
@@ -160,7 +161,7 @@ Fixpoint explore (body : nat -> mstate -> LS) (mn bound z : nat) (fuel : nat) (j
 (* ReluctantRepeatIterator: pre-order traversal; an iteration that consumed nothing is not
    repeated once the minimum is reached *)
 Fixpoint rexplore (body : nat -> mstate -> LS) (mn bound : nat) (fuel : nat) (depth : nat)
-         (descend : bool) (p : nat) (s : mstate) : LS :=
+         (descend emp : bool) (p : nat) (s : mstate) : LS :=
   match fuel with
   | O => LOut
   | S f =>
@@ -171,11 +172,12 @@ Fixpoint rexplore (body : nat -> mstate -> LS) (mn bound : nat) (fuel : nat) (de
            | LOut => LOut | LPanic k => LPanic k
            | LCons q s' r =>
                let d' := S depth in
-               let desc' := negb (Nat.eqb q p) || Nat.ltb d' mn in
-               if Nat.leb mn d' then
-                 LCons q s' (fun s'' => append (rexplore body mn bound f d' desc' q s'')
+               let desc' := negb (Nat.eqb q p) || (Nat.ltb d' mn && negb emp) in
+               let emp' := emp || Nat.eqb q p in
+               if Nat.leb mn d' || emp' then
+                 LCons q s' (fun s'' => append (rexplore body mn bound f d' desc' emp' q s'')
                                                 (fun s3 => go (r s3)))
-               else append (rexplore body mn bound f d' desc' q s') (fun s3 => go (r s3))
+               else append (rexplore body mn bound f d' desc' emp' q s') (fun s3 => go (r s3))
            end) (body p s)
       else LNil s
   end.
@@ -350,16 +352,16 @@ Fixpoint mi (o : op) (path : list nat) : nat -> mstate -> LS :=
                           else (0, s) in
           (* the zero-repetition entry is an unconsumed iter::once: when it becomes the top of the
              stack it yields the start position, which re-deepens from there a second time *)
-          let first_pass := explore (mi o' (0 :: path)) mnc bound z (n + 5) 0 true p s0 in
+          let first_pass := explore (mi o' (0 :: path)) mnc bound z (n + 5) 0 true false p s0 in
           force_progress 0 None
             (if Nat.eqb z 1
-             then append first_pass (fun s' => explore (mi o' (0 :: path)) mnc bound z (n + 5) 0 false p s')
+             then append first_pass (fun s' => explore (mi o' (0 :: path)) mnc bound z (n + 5) 0 false false p s')
              else first_pass)
         else
           force_progress 0 None
             (if N.eqb mn 0
-             then LCons p s (fun s' => rexplore (mi o' (0 :: path)) mnc bound (n + 5) 0 true p s')
-             else rexplore (mi o' (0 :: path)) mnc bound (n + 5) 0 true p s)
+             then LCons p s (fun s' => rexplore (mi o' (0 :: path)) mnc bound (n + 5) 0 true false p s')
+             else rexplore (mi o' (0 :: path)) mnc bound (n + 5) 0 true false p s)
   | OGFixed o' mn mx len => fun p s =>
       let leng := N.to_nat len in
       let guard := if N.ltb mx umax
